@@ -58,7 +58,9 @@ func UtxoValidateTimeToLive(
 	pp common.ProtocolParameters,
 ) error {
 	ttl := tx.TTL()
-	if ttl == 0 || ttl >= slot {
+	// The TTL is mandatory in Shelley, so zero is a real bound (only valid at
+	// slot 0), not "no TTL"
+	if ttl >= slot {
 		return nil
 	}
 	return ExpiredUtxoError{
